@@ -104,7 +104,10 @@ class Report:
     def note(self, msg: str):
         if msg not in self.notes:
             self.notes.append(msg)
-            print(f"NOTE {msg}", flush=True)
+            if len(self.notes) <= 8:
+                print(f"NOTE {msg}", flush=True)
+            elif len(self.notes) == 9:
+                print("NOTE (further notes are recorded in the evidence file only)", flush=True)
 
     def assume(self, text: str):
         if text not in self.assumptions:
@@ -147,7 +150,8 @@ class Report:
         cov.setdefault("distinct_nontrivial", len(self.distinct))
         cov.setdefault("rule", "")
         if self.notes:
-            cov["notes"] = self.notes
+            cov["notes"] = self.notes[:60]
+            cov["notes_total"] = len(self.notes)
         if self.known_hits:
             cov["known_findings_hit"] = [k[0] for k in self.known_hits]
         ev = {
